@@ -125,6 +125,7 @@ type fileInfo struct {
 	name string
 	size int64
 	dir  bool
+	fifo bool
 }
 
 func (i fileInfo) Name() string { return i.name }
@@ -132,6 +133,9 @@ func (i fileInfo) Size() int64  { return i.size }
 func (i fileInfo) Mode() FileMode {
 	if i.dir {
 		return fs.ModeDir | 0755
+	}
+	if i.fifo {
+		return fs.ModeNamedPipe | 0644
 	}
 	return 0644
 }
@@ -141,7 +145,7 @@ func (i fileInfo) Sys() interface{}   { return nil }
 
 func (f *File) Stat() (FileInfo, error) {
 	if f.fd >= 0 {
-		return fileInfo{name: f.name, size: 0}, nil
+		return fileInfo{name: f.name, size: 0, fifo: true}, nil
 	}
 	return Stat(f.name)
 }
@@ -154,7 +158,7 @@ func Stat(name string) (FileInfo, error) {
 	if err != nil {
 		return nil, &PathError{Op: "stat", Path: name, Err: err}
 	}
-	return fileInfo{name: name, size: sz}, nil
+	return fileInfo{name: name, size: sz, fifo: simio.W.IsFifo(name)}, nil
 }
 
 func Lstat(name string) (FileInfo, error) { return Stat(name) }
